@@ -24,6 +24,18 @@ type RefMon struct {
 	// sees garbage.  The fields are replaced, not overwritten, so slices held elsewhere stay intact.
 	Recycle  bool
 	Recycled int64
+	// BaseOne is the accounting of an application that installs ItemAddRef/ItemDecRef but no
+	// ItemAlloc: an item it has not seen before was made by the store and starts with the one
+	// reference of its maker.
+	BaseOne bool
+}
+
+// known makes sure an item has an entry (BaseOne: starting at 1).  Caller holds the lock.
+func (r *RefMon) known(i *gkvlite.Item) {
+	if _, ok := r.cnt[i]; !ok && r.BaseOne && i != nil {
+		r.cnt[i] = 1
+		r.acq[i] = append(r.acq[i], "made-by-store@"+r.tag)
+	}
 }
 
 func NewRefMon() *RefMon {
@@ -44,6 +56,7 @@ func (r *RefMon) Alloc(i *gkvlite.Item) {
 
 func (r *RefMon) AddRef(i *gkvlite.Item) {
 	r.mu.Lock()
+	r.known(i)
 	r.cnt[i]++
 	r.acq[i] = append(r.acq[i], "addref@"+r.tag)
 	r.Adds++
@@ -60,6 +73,7 @@ func (r *RefMon) DecRef(i *gkvlite.Item) {
 		}
 		return
 	}
+	r.known(i)
 	r.cnt[i]--
 	if a := r.acq[i]; len(a) > 0 {
 		r.acq[i] = a[:len(a)-1]
@@ -68,6 +82,13 @@ func (r *RefMon) DecRef(i *gkvlite.Item) {
 		r.viol = fmt.Sprintf("C15/count-below-zero: ItemDecRef took the count of item %s to %d", kvString(i.Key), r.cnt[i])
 	}
 	if r.cnt[i] == 0 && r.Recycle {
+		// the buffers are overwritten (whoever shares them sees it) and the fields replaced
+		for j := range i.Key {
+			i.Key[j] = '#'
+		}
+		for j := range i.Val {
+			i.Val[j] = '#'
+		}
 		k := make([]byte, len(i.Key))
 		for j := range k {
 			k[j] = 0xdd
@@ -81,6 +102,7 @@ func (r *RefMon) DecRef(i *gkvlite.Item) {
 func (r *RefMon) Count(i *gkvlite.Item) int {
 	r.mu.Lock()
 	defer r.mu.Unlock()
+	r.known(i)
 	return r.cnt[i]
 }
 
@@ -91,6 +113,7 @@ func (r *RefMon) CheckHandedOut(i *gkvlite.Item, where string) {
 	}
 	r.mu.Lock()
 	defer r.mu.Unlock()
+	r.known(i)
 	if r.cnt[i] <= 0 && r.viol == "" {
 		r.viol = fmt.Sprintf("C15/handed-out-with-nonpositive-count/%s: item %s handed to the caller by %s has count %d", where, kvString(i.Key), where, r.cnt[i])
 	}
@@ -103,6 +126,7 @@ func (r *RefMon) CheckReachable(i *gkvlite.Item) {
 	}
 	r.mu.Lock()
 	defer r.mu.Unlock()
+	r.known(i)
 	if r.cnt[i] <= 0 && r.viol == "" {
 		r.viol = fmt.Sprintf("C15/reachable-with-nonpositive-count: item %s cached in an open collection has count %d", kvString(i.Key), r.cnt[i])
 	}
